@@ -1221,6 +1221,7 @@ MODEL = {
     'C07': dict(kind='ts', pipes=lambda: [
         [G.op_time_split(2, -1, False, True, [])], [G.op_time_split(-1, 1, False, True, [])],
         [G.op_time_split(2, 1, True, True, [])], [G.op_time_split(3, 2, True, False, [])],
+        [G.op_time_split(0, -1, False, True, [])], [G.op_time_split(-1, 0, True, True, [])],   # zero timeouts
     ], deviations=['time-split-inactive-gt']),
     'C08': dict(pipes=lambda: [
         [G.op_tee(j, [[G.op_filter('ltc', 1)], [G.op_filter('gec', 1)]])] for j in ('zip', 'combine_latest', 'merge')]
@@ -1238,6 +1239,7 @@ MODEL = {
     'C10': dict(pipes=lambda: [
         [G.op_simple('first')], [G.op_simple('last')], [G.op_simple('take', n=2)],
         [G.op_simple('distinct', f=fn('id'))], [G.op_simple('lag', n=1)], [G.op_simple('lag', n=2)],
+        [G.op_simple('lag', n=0)],
         [G.op_simple('pad_start', n=1, v=NONE)], [G.op_simple('pad_end', n=2, v=I(9))],
         [G.op_simple('start_with', p=[I(7)])], [G.op_simple('batch', n=1)], [G.op_simple('batch', n=3)],
     ], deviations=['take-off-by-one', 'first-no-flag', 'lag-off-by-one', 'batch-late']),
@@ -1253,7 +1255,10 @@ MODEL = {
         [G.op_filter('failIfP', 1), {'op': 'errmap', 'f': fn('errcode')}],
         [G.op_scan('failAdd', I(0), c=0), G.op_simple('ignore'), G.op_simple('to_list')],
         [G.op_group_by('modc', 2, [G.op_map('failIf', 1)])],
-    ], deviations=['scan-error-loses-state']),
+        [G.op_map('dup'), {'op': 'starmap', 'f': fn('failAdd2', 2)}, G.op_simple('ignore')],
+        [G.op_tee('merge', [[G.op_map('failIf', 1)], [G.op_map('addc', 10)]]), G.op_simple('ignore')],
+        [G.op_tee('zip', [[], [G.op_filter('failIfP', 1)]])],
+    ], deviations=['scan-error-loses-state', 'tee-errors-last-branch-only']),
 }
 
 PROPS = {
